@@ -12,7 +12,7 @@ out=$2
 case "$prop" in
     C05) target=fz_parse; maxlen=96; runs=3000000;;
     C17) target=fz_json; maxlen=128; runs=1000000;;
-    C19|C01) target=fz_program; maxlen=1024; runs=150000;;
+    C19|C01) target=fz_program; maxlen=1024; runs=40000;;
     C02|C03) target=fz_cmp; maxlen=256; runs=1000000;;
     C04|C16) target=fz_fmt; maxlen=256; runs=600000;;
     *) exit 0;;
@@ -43,7 +43,7 @@ for j in $(seq 1 "$JOBS"); do
     dict=""
     [ -f "$HERE/seeds/$target.dict" ] && dict="-dict=$HERE/seeds/$target.dict"
     ( "$bin" "$cdir" -runs="$RUNS" -seed=$((SEED * 100 + j + 1)) -len_control=0 -max_len=$maxlen $dict \
-        -artifact_prefix="$adir" -print_final_stats=1 -timeout=60 -rss_limit_mb=4096 >"$WORK/fuzz-$target-$j.log" 2>&1 ) &
+        -artifact_prefix="$adir" -print_final_stats=1 -max_total_time=${VERIF_FUZZ_SECONDS:-900} -timeout=120 -rss_limit_mb=4096 >"$WORK/fuzz-$target-$j.log" 2>&1 ) &
     pids+=($!)
 done
 rc=0
